@@ -1038,6 +1038,19 @@ def _is_exception(node: ast.AST) -> bool:
     return False
 
 
+def _breaks_or_continues(node: ast.AST) -> bool:
+    """Check if node contains a break or continue that belongs to the loop around node."""
+    if isinstance(node, (ast.Break, ast.Continue)):
+        return True
+    if isinstance(node, (ast.For, ast.AsyncFor, ast.While)):
+        # What is in the body belongs to that loop, what is in its else clause does not
+        return any(_breaks_or_continues(child) for child in node.orelse)
+    if isinstance(node, (ast.FunctionDef, ast.AsyncFunctionDef, ast.ClassDef)):
+        return False
+
+    return any(_breaks_or_continues(child) for child in ast.iter_child_nodes(node))
+
+
 def _is_blocking_body(body: Sequence[ast.AST], parent_type: ast.AST = None) -> bool:
     for child in body:
         if is_blocking(child, parent_type):
@@ -1106,10 +1119,6 @@ def is_blocking(node: ast.AST, parent_type: ast.AST = None) -> bool:
 
     if isinstance(node, (ast.For, ast.While)):
         for child in node.body:
-            if is_blocking(child, type(node)):
-                return True
-            if is_blocking(child, parent_type):
-                return False
             if isinstance(child, ast.If) and any(walk(child, (ast.Break, ast.Continue))):
                 try:
                     test = literal_value(child.test)
@@ -1117,6 +1126,13 @@ def is_blocking(node: ast.AST, parent_type: ast.AST = None) -> bool:
                     return False
                 if test:
                     return False
+            elif _breaks_or_continues(child):
+                # A break or continue of this loop somewhere inside, for example in an if in a with
+                return False
+            if is_blocking(child, type(node)):
+                return True
+            if is_blocking(child, parent_type):
+                return False
 
         if isinstance(node, ast.For):
             return False
